@@ -193,6 +193,13 @@ func Add(a, b *Term) *Term {
 	if a.Op == "const" {
 		return Add(b, a)
 	}
+	// x + (y - x) = y
+	if b.Op == "-" && len(b.Args) == 2 && b.Args[1] == a {
+		return b.Args[0]
+	}
+	if a.Op == "-" && len(a.Args) == 2 && a.Args[1] == b {
+		return a.Args[0]
+	}
 	return mk("+", IntS, a, b)
 }
 func Sub(a, b *Term) *Term {
